@@ -17,6 +17,17 @@ Decided statically on the CFG of every instantiated member (payloads int / doubl
   R-C12-3  TransactionalValue::update(): returns true exactly on the paths that install (currentValue <- queuedValue);
            installs only after observing the flag set, and whenever it observed it set; the flag is reset inside the same
            lock scope as the install.
+  R-C12-2 (atomic hand-out)  consume(): critical sections are numbered; a value observed from the buffer (size(), empty(), ...,
+           also through a followed helper) carries the number of the section it was read in.  An element-wise hand-out loop is
+           classified where its condition is evaluated: bounded by an observation of the *current* section (or by the buffer
+           itself) it hands out everything; bounded by an observation of an *earlier* section it hands out a stale prefix, and
+           a following clear() then destroys elements that never reached a batch (violation).
+  R-C12-3 (faithful pending test)  the indicator update() tests is a boolean the producer sets and the consumer clears; if the
+           flag is replaced by a comparison of counters narrower than 64 bits that the producer increments, the test wraps to
+           "nothing new" after 2^width assignments (violation); other replacements are not decided.
+  R-C12-5  the guarding lock orders consecutive critical sections: std::mutex & co are trusted; for a user-defined lockable
+           unlock() must write with at least memory_order_release on every path and lock() must return only after a
+           read-modify-write with at least memory_order_acquire that saw the lock free; fences are not modelled (undecided).
   (all rules) the entry points are the public members; calls to functions defined in the class's own header (private helpers,
            member templates, closures invoked directly) are followed with the lock state and the automaton state carried
            through (rkstatic.x_sync.Inliner), so a critical section that lives in a helper counts for its callers.
@@ -47,7 +58,7 @@ TABLE = {
     VAL: dict(file='rkcommon/utility/TransactionalValue.h', mutex='mutex', guarded=('newValue', 'queuedValue'),
               confined={'currentValue': ('ref', 'get', 'update')}, producer=('operator=',), short='TransactionalValue'),
 }
-R1, R2, R3, R4 = 'R-C12-1', 'R-C12-2', 'R-C12-3', 'R-C12-4'
+R1, R2, R3, R4, R5 = 'R-C12-1', 'R-C12-2', 'R-C12-3', 'R-C12-4', 'R-C12-5'
 LOCK_EVENTS = ('locks', 'unlock-scope', 'lk-unlock', 'lk-lock', 'm-lock', 'm-unlock', 'lk-other', 'm-other')
 APPEND = ('push_back', 'emplace_back')
 NEUTRAL = ('reserve', 'shrink_to_fit', 'get_allocator', 'begin', 'end', 'rbegin', 'rend')   # creating an iterator mutates nothing
@@ -387,29 +398,117 @@ def check_buffer_ops(ctx, tu, sy, f, counts):
     if name == 'consume':
         if not f['fty'].startswith('std::vector<') or f['fty'].split('(')[0].strip().endswith(('&', '*')):
             found.und(R2, 'consume() does not return a std::vector by value', None)
+        mutex = (BUF, T['mutex'])
+        ELEMENT = ('operator[]', 'at', 'front', 'back', 'data')
 
-        # state: (bufst, holders, fresh, ret)
+        # state: (bufst, holders, fresh, ret, locks, known, epoch, taints, stale, branched)
+        #   epoch: number of critical sections of bufferMutex entered so far; taints: (expression / variable / call, epoch) =
+        #   value observed from the buffer in that critical section; holders: locals holding the whole content; stale: locals
+        #   holding only the elements selected by an observation from an *earlier* critical section
         def var_of(e):
             return sy.local_var(sy.unwrap_move(e))
 
+        def taint_of(e, taints):
+            """oldest epoch of a buffer observation the expression depends on, else None"""
+            d = dict(taints)
+            eps = []
+            for x in tu.walk(e):
+                if 'id' not in x:
+                    continue
+                if x['id'] in d:
+                    eps.append(d[x['id']])
+                if x.get('kind') == 'DeclRefExpr' and x.get('referencedDecl', {}).get('id') in d:
+                    eps.append(d[x['referencedDecl']['id']])
+            return min(eps) if eps else None
+
+        def loop_of(n):
+            p = tu.par(n)
+            hops = 0
+            while p is not None and hops < 40 and p.get('kind') not in ('ForStmt', 'WhileStmt', 'DoStmt', 'CXXForRangeStmt'):
+                if p.get('kind') in ('FunctionDecl', 'CXXMethodDecl', 'LambdaExpr'):
+                    return None
+                p = tu.par(p)
+                hops += 1
+            if p is None or p.get('kind') not in ('ForStmt', 'WhileStmt', 'DoStmt', 'CXXForRangeStmt'):
+                return None
+            return p
+
+        def is_element_handout(n):
+            """local variable L if n is `L.push_back/emplace_back(<expression over the buffer>)`"""
+            if n.get('kind') != 'CXXMemberCallExpr':
+                return None
+            s_, obj, args = tu.call_parts(n)
+            v = sy.local_var(obj) if obj is not None else None
+            if v is None or last(s_.get('q')) not in APPEND or not args:
+                return None
+            if sy.mentions_field(args[0], fld):
+                return v
+            av = sy.local_var(sy.unwrap_move(args[0]))          # the loop variable of `for (auto &x : buffer)`
+            d = tu.node(av) if av is not None else None
+            lp = tu.par(tu.par(d)) if d is not None and tu.par(d) is not None else None
+            if lp is not None and lp.get('kind') == 'CXXForRangeStmt' and any(sy.mentions_field(x, fld) for x in tu.kids(lp)[:-1]):
+                return v
+            return None
+
+        # element-wise hand-out loops (found on the AST of consume() and of the helpers it calls): loop statement -> local vector.
+        # They are classified when the loop condition is evaluated, so that the zero-trip path is classified too.
+        xfer_loops = {}
+        for fn in inl.reachable_fns(f):
+            for x in tu.walk(tu.body(fn)) if tu.body(fn) is not None else ():
+                if 'id' in x and x.get('kind') == 'CXXMemberCallExpr':
+                    v = is_element_handout(x)
+                    lp = loop_of(x) if v is not None else None
+                    if lp is not None:
+                        xfer_loops[lp['id']] = v
+
+        def loop_bound(p, st):
+            """'all' / 'stale' / None: what the loop statement p iterates over"""
+            epoch, taints = st[6], st[7]
+            ks = tu.kids(p)
+            if p['kind'] == 'CXXForRangeStmt':
+                return 'all' if any(sy.mentions_field(x, fld) for x in ks[:-1]) else None
+            conds = [x for x in (ks[:-1] if p['kind'] != 'DoStmt' else ks[1:])
+                     if x.get('kind') != 'DeclStmt' and x.get('type', {}).get('qualType') == 'bool']
+            if not conds:
+                return None
+            c = conds[0]
+            t = taint_of(c, taints)
+            direct = any(buffer_call(tu, sy, x, fld) is not None for x in tu.walk(c) if 'id' in x)
+            if t is not None and t < epoch:
+                return 'stale'
+            if direct or t == epoch:
+                return 'all'
+            return None
+
         def transfer(blk, i, e, st):
-            if i == 0:
-                cur['at'] = (blk.id, st)
-            bufst, holders, fresh, ret = st
+            bufst, holders, fresh, ret, locks, known, epoch, taints, stale, branched = st
+            ev = sy.event(e)
             n = tu.node(e[1]) if e[0] == 'S' else None
+            if ev is not None and ev[0] in LOCK_EVENTS:
+                locks2, known = lock_step(sy, BUF, T, locks, known, ev, n, found, R2)
+                if LockState.holds(locks2, mutex) and not LockState.holds(locks, mutex):
+                    epoch = min(epoch + 1, 4)
+                return [(bufst, holders, fresh, ret, locks2, known, epoch, taints, stale, branched)]
             if n is None:
                 return [st]
             k = n.get('kind')
             if own_call(tu, n, BUF):
-                found.und(R2, 'consume() delegates to the member %s(): not modelled' % own_call(tu, n, BUF), n)
+                found.und(R2, 'consume() delegates to the member %s(), whose body is not available: not modelled' % own_call(tu, n, BUF), n)
             if k == 'DeclStmt':
                 for v in tu.kids(n):
                     if v.get('kind') != 'VarDecl':
                         continue
-                    vt = (v.get('type', {}).get('desugaredQualType') or v.get('type', {}).get('qualType', ''))
-                    if not vt.replace('const ', '').startswith('std::vector<'):
-                        continue
                     ks = tu.kids(v)
+                    vt = (v.get('type', {}).get('desugaredQualType') or v.get('type', {}).get('qualType', ''))
+                    if vt.rstrip().endswith('&'):
+                        if not v.get('isImplicit') and ks and is_buffer(tu, sy, ks[-1], fld):
+                            found.und(R2, 'a local reference is bound to the buffer: accesses through it are not modelled', n)
+                        continue            # (the implicit __range reference of a range-for is handled with its loop)
+                    if not vt.replace('const ', '').startswith('std::vector<'):
+                        t = taint_of(ks[-1], taints) if ks else None
+                        if t is not None:
+                            taints = frozenset(set(taints) | {(v['id'], t)})
+                        continue
                     init = tu.strip(ks[-1]) if ks else None
                     if init is None or (init.get('kind') == 'CXXConstructExpr' and not tu.kids(init)):
                         fresh = frozenset(set(fresh) | {v['id']})
@@ -419,31 +518,46 @@ def check_buffer_ops(ctx, tu, sy, f, counts):
                             bufst = 'empty'
                     elif init is not None and sy.mentions_field(init, fld):
                         found.und(R2, 'local vector initialised from the buffer in a form that is not modelled', n)
-                return [(bufst, holders, fresh, ret)]
+                return [(bufst, holders, fresh, ret, locks, known, epoch, taints, stale, branched)]
+            if k == 'BinaryOperator' and n.get('opcode') == '=':
+                var = sy.local_var(tu.kids(n)[0])
+                if var is not None:
+                    t = taint_of(tu.kids(n)[1], taints)
+                    keep = {p for p in taints if p[0] != var}
+                    if t is not None:
+                        keep.add((var, t))
+                    return [(bufst, holders, fresh, ret, locks, known, epoch, frozenset(keep), stale, branched)]
             if k == 'ReturnStmt':
+                if inl.depth > 0:
+                    return [st]             # return of a followed helper, not of consume()
                 ks = tu.kids(n)
                 x = tu.strip(ks[0]) if ks else None
+
+                def of_var(v):
+                    return 'contents' if v in holders else 'stale' if v in stale else 'other'
                 if x is not None and x.get('kind') == 'CXXConstructExpr' and len(tu.kids(x)) == 1:
-                    a = tu.kids(x)[0]
-                    if is_buffer(tu, sy, a, fld):
-                        return [('empty' if is_move(tu, sy, x) else bufst, holders, fresh, 'contents')]
-                    v = var_of(a)
+                    a0 = tu.kids(x)[0]
+                    if is_buffer(tu, sy, a0, fld):
+                        return [('empty' if is_move(tu, sy, x) else bufst, holders, fresh, 'contents', locks, known, epoch, taints, stale,
+                                 branched)]
+                    v = var_of(a0)
                     if v is not None:
-                        return [(bufst, holders, fresh, 'contents' if v in holders else 'other')]
+                        return [(bufst, holders, fresh, of_var(v), locks, known, epoch, taints, stale, branched)]
                 v = var_of(x) if x is not None else None
                 if v is not None:
-                    return [(bufst, holders, fresh, 'contents' if v in holders else 'other')]
+                    return [(bufst, holders, fresh, of_var(v), locks, known, epoch, taints, stale, branched)]
                 if x is not None and sy.mentions_field(x, fld):
                     found.und(R2, 'return expression uses the buffer in a form that is not modelled', n)
-                return [(bufst, holders, fresh, 'other')]
+                return [(bufst, holders, fresh, 'other', locks, known, epoch, taints, stale, branched)]
             if k == 'CallExpr' and tu.sd(n).get('q') == 'std::swap':
                 args = tu.kids(n)[1:]
                 if len(args) == 2:
-                    for a, b in ((args[0], args[1]), (args[1], args[0])):
-                        if is_buffer(tu, sy, a, fld):
-                            v = var_of(b)
+                    for a0, b0 in ((args[0], args[1]), (args[1], args[0])):
+                        if is_buffer(tu, sy, a0, fld):
+                            v = var_of(b0)
                             if v in fresh:
-                                return [('empty', frozenset(set(holders) | {v}), frozenset(set(fresh) - {v}), ret)]
+                                return [('empty', frozenset(set(holders) | {v}), frozenset(set(fresh) - {v}), ret, locks, known, epoch,
+                                         taints, stale, branched)]
                             found.und(R2, 'swap of the buffer with something that is not a fresh empty local vector', n)
                 return [st]
             bc = buffer_call(tu, sy, n, fld)
@@ -452,18 +566,22 @@ def check_buffer_ops(ctx, tu, sy, f, counts):
                 if nm == 'swap' and args:
                     v = var_of(args[0])
                     if v in fresh:
-                        return [('empty', frozenset(set(holders) | {v}), frozenset(set(fresh) - {v}), ret)]
+                        return [('empty', frozenset(set(holders) | {v}), frozenset(set(fresh) - {v}), ret, locks, known, epoch, taints,
+                                 stale, branched)]
                     found.und(R2, 'swap of the buffer with something that is not a fresh empty local vector', n)
                     return [st]
                 if nm == 'clear':
-                    if not holders and ret != 'contents':
+                    if not holders and not stale and ret != 'contents':
                         found.viol(R2, FN, 'consume-loses-elements', 'consume() clears the buffer before its content was handed to the '
                                    'returned vector: pushed elements are lost', n)
-                    return [('empty', holders, fresh, ret)]
+                    return [('empty', holders, fresh, ret, locks, known, epoch, taints, stale, branched)]
                 if nm in APPEND:
                     found.viol(R2, FN, 'mutates-buffer', 'consume() appends to the buffer', n)
                     return [st]
-                if const or nm in NEUTRAL:
+                if const and nm not in ELEMENT:
+                    # an observation of the buffer (size(), empty(), ...) made in the current critical section
+                    return [(bufst, holders, fresh, ret, locks, known, epoch, frozenset(set(taints) | {(n['id'], epoch)}), stale, branched)]
+                if const or nm in NEUTRAL or nm in ELEMENT:
                     return [st]
                 found.und(R2, 'consume() calls %s() on the buffer: not modelled' % nm, n)
                 return [st]
@@ -473,27 +591,67 @@ def check_buffer_ops(ctx, tu, sy, f, counts):
                 v = sy.local_var(obj) if obj is not None else None
                 if v is not None and args and is_buffer(tu, sy, args[0], fld):
                     if nm == 'swap' and v in fresh:
-                        return [('empty', frozenset(set(holders) | {v}), frozenset(set(fresh) - {v}), ret)]
+                        return [('empty', frozenset(set(holders) | {v}), frozenset(set(fresh) - {v}), ret, locks, known, epoch, taints,
+                                 stale, branched)]
                     if nm == 'operator=':
-                        return [('empty' if is_move(tu, sy, n) else bufst, frozenset(set(holders) | {v}), frozenset(set(fresh) - {v}), ret)]
+                        return [('empty' if is_move(tu, sy, n) else bufst, frozenset(set(holders) | {v}), frozenset(set(fresh) - {v}), ret,
+                                 locks, known, epoch, taints, stale, branched)]
                     found.und(R2, 'local.%s(buffer): not modelled' % nm, n)
+                    return [st]
+                if is_element_handout(n) is not None and v not in holders and v not in stale:
+                    # element-wise hand-out whose loop was not classified at its condition (no loop / range not recognised)
+                    found.und(R2, 'elements of the buffer are handed out one by one and the range of the loop is not recognised', n)
             return [st]
 
-        res, outs = inl.explore(f, [('full', frozenset(), frozenset(), None)], transfer, None, hooks)
+        def refine(blk, si, st):
+            if blk.term in xfer_loops:
+                v = xfer_loops[blk.term]
+                kind = loop_bound(tu.node(blk.term), st)
+                bufst, holders, fresh, ret, locks, known, epoch, taints, stale, branched = st
+                if kind == 'all' and v not in stale:
+                    return [(bufst, frozenset(set(holders) | {v}), frozenset(set(fresh) - {v}), ret, locks, known, epoch, taints, stale,
+                             branched)]
+                if kind == 'stale':
+                    return [(bufst, frozenset(set(holders) - {v}), frozenset(set(fresh) - {v}), ret, locks, known, epoch, taints,
+                             frozenset(set(stale) | {v}), branched)]
+                return [st]
+            atom, _truth = sy.edge_truth(blk, si)
+            if atom is not None and not st[9] and taint_of(atom, st[7]) is not None:
+                return [st[:9] + (True,)]
+            return [st]
+
+        class ConsumeHooks(C12Hooks):
+            def ret_value(self, e, st):
+                return taint_of(e, st[7])
+
+            def post_call(self, n, cf, st, rv):
+                if rv is not None:
+                    return [st[:7] + (frozenset(set(st[7]) | {(n['id'], rv)}),) + st[8:]]
+                return [st]
+
+        res, outs = inl.explore(f, [('full', frozenset(), frozenset(), None, frozenset(), frozenset(), 0, frozenset(), frozenset(), False)],
+                                transfer, refine, ConsumeHooks(sy, found, R2, params))
         for (st, _rv, via) in outs:
-            if g.blocks[via].noret:
-                continue
-            bufst, holders, fresh, ret = st
+            bufst, holders, fresh, ret, locks, known, epoch, taints, stale, branched = st
             at = exit_at(res, via)
             if ret is None:
                 found.und(R2, 'consume() has a path without a return statement', None)
             elif ret == 'contents' and bufst == 'full':
                 found.viol(R2, FN, 'consume-keeps-elements', 'consume() returns a copy of the buffer but leaves the elements in it: the '
                            'next consume() delivers them again (duplication)', None, at)
+            elif ret == 'stale' and bufst == 'empty':
+                found.viol(R2, FN, 'consume-drops-late-elements', 'consume() hands out only the elements counted in an earlier critical '
+                           'section, then removes *all* elements in a later one: what a producer pushed between the two critical '
+                           'sections is destroyed without ever appearing in a batch', None, at)
+            elif ret == 'stale':
+                found.und(R2, 'consume() hands out a range selected in an earlier critical section and does not clear(): the removal '
+                          'is not modelled', None)
             elif ret != 'contents' and bufst == 'empty':
                 found.viol(R2, FN, 'consume-loses-elements', 'consume() empties the buffer but does not return its content', None, at)
-            elif ret != 'contents':
+            elif ret != 'contents' and not branched:
                 found.viol(R2, FN, 'consume-returns-nothing', 'consume() does not return the content of the buffer', None, at)
+            # ret 'other' on a path that branched on an observation of the buffer and left it untouched (e.g. early return when
+            # empty) neither loses nor duplicates anything
         emit(ctx, tu, g, res, found, inst, (R2,), tu.fn_loc(f), {R2: 'whole content handed to the returned vector, buffer left empty'})
         return
 
@@ -757,6 +915,192 @@ def atomic_mirror(tu, sy, rec, T, member):
 
 
 # ======================================================================================================
+#  R-C12-5 the lock type gives acquire / release ordering
+# ======================================================================================================
+TRUSTED_MUTEXES = ('std::mutex', 'std::recursive_mutex', 'std::timed_mutex', 'std::recursive_timed_mutex', 'std::shared_mutex',
+                   'std::shared_timed_mutex')
+ACQ = (2, 4, 5)      # memory_order_acquire, acq_rel, seq_cst
+REL = (3, 4, 5)      # memory_order_release, acq_rel, seq_cst
+ORD = {0: 'memory_order_relaxed', 1: 'memory_order_consume', 2: 'memory_order_acquire', 3: 'memory_order_release',
+       4: 'memory_order_acq_rel', 5: 'memory_order_seq_cst'}
+
+
+def check_lockable(ctx, tu, sy, rec, T, mtype, counts):
+    """The guarded-by argument needs more than mutual exclusion: the end of one critical section must happen-before the start
+    of the next.  std::mutex & co are trusted.  A user-defined lockable (used through lock_guard / unique_lock) is analysed:
+    unlock() must publish with a store / read-modify-write of at least memory_order_release on every path, lock() must return
+    only after a read-modify-write of at least memory_order_acquire that observed the lock free.
+    Returns True when the member can be treated as a lock by the other rules."""
+    counts[R5] += 1
+    inst = '%s::%s : %s' % (T['short'], T['mutex'], mtype)
+    if mtype in TRUSTED_MUTEXES:
+        ctx.ok(R5, inst, 'standard mutex: unlock() synchronizes-with the next lock() (trusted contract)', T['file'])
+        return True
+    locks = [f for f in tu.fns(q=mtype + '::lock', dep=False) if tu.cfg(f) is not None]
+    unlocks = [f for f in tu.fns(q=mtype + '::unlock', dep=False) if tu.cfg(f) is not None]
+    if len(locks) != 1 or len(unlocks) != 1:
+        ctx.undecided(R5, inst, 'lock type %s: bodies of lock() / unlock() not available: ordering not decided' % mtype, T['file'])
+        return False
+    short = mtype.split('::')[-1]
+    bad = False
+    for fn, side in ((unlocks[0], 'unlock'), (locks[0], 'lock')):
+        g = tu.cfg(fn)
+        file = tu.fn_file(fn)
+        inl = Inliner(tu, lambda cf, file=file: tu.fn_file(cf) == file)
+        found = Found(file, inl)
+        FN = '%s::%s' % (short, side)
+
+        # state: (best, last, toks, acq)  best: strongest ordering effect seen on the path ('ok' / weakest order seen); for lock():
+        # toks = read-modify-writes whose result is pending, acq = order of the one that observed the lock free
+        def transfer(blk, i, e, st, side=side):
+            n = tu.node(e[1]) if e[0] == 'S' else None
+            if n is None:
+                return [st]
+            if n.get('kind') == 'CallExpr' and tu.sd(n).get('q') in ('std::atomic_thread_fence', 'std::atomic_signal_fence'):
+                found.und(R5, 'memory fence in %s(): fence-based ordering is not modelled' % side, n)
+                return [st]
+            a = sy.atomic_op(n)
+            if a is None or a['field'] is None or a['field'][0] != mtype:
+                return [st]
+            writes, toks, acq = st
+            if side == 'unlock' and a['op'] in ('store', 'rmw'):
+                return [(writes + ((a['order'], n['id']),), toks, acq)]
+            if side == 'lock' and a['op'] == 'rmw':
+                free_when = {'exchange': False, 'test_and_set': False, 'compare_exchange_weak': True,
+                             'compare_exchange_strong': True}.get(a['name'])
+                if free_when is None:
+                    found.und(R5, 'lock() acquires through %s(): not modelled' % a['name'], n)
+                    return [st]
+                return [(writes, frozenset(set(toks) | {(n['id'], free_when, a['order'])}), acq)]
+            return [st]
+
+        def refine(blk, si, st):
+            atom, truth = sy.edge_truth(blk, si)
+            if atom is None:
+                return [st]
+            writes, toks, acq = st
+            for t in toks:
+                if t[0] == atom.get('id') and truth == t[1]:
+                    return [(writes, toks, (t[2], t[0]))]
+            return [st]
+
+        res, outs = inl.explore(fn, [((), frozenset(), None)], transfer, refine, C12Hooks(sy, found, R5))
+        for (st, _rv, via) in outs:
+            writes, toks, acq = st
+            at = exit_at(res, via)
+            if side == 'unlock':
+                if not writes:
+                    found.und(R5, 'unlock() has a path without an atomic write: not recognised as a lock release', None)
+                elif not any(o in REL for o, _n in writes):
+                    o, nid = writes[-1]
+                    found.viol(R5, FN, 'unlock-not-release', 'unlock() releases the lock with %s: nothing makes the writes of the critical '
+                               'section happen-before the next lock() in another thread, so accesses to the members guarded by this '
+                               'lock are a data race although they are mutually exclusive' % ORD.get(o, 'a non-constant order'),
+                               tu.node(nid), at)
+            else:
+                if acq is None:
+                    found.und(R5, 'lock() can return without a read-modify-write that observed the lock free: not recognised as a '
+                              'lock acquisition', None)
+                elif acq[0] not in ACQ:
+                    found.viol(R5, FN, 'lock-not-acquire', 'lock() takes the lock with %s: the critical section is not ordered after the '
+                               'previous owner\'s unlock(), so accesses to the members guarded by this lock are a data race'
+                               % ORD.get(acq[0], 'a non-constant order'), tu.node(acq[1]), at)
+        if found.v:
+            bad = True
+        emit(ctx, tu, g, res, found, '%s (%s)' % (inst, side), (R5,), tu.fn_loc(fn),
+             {R5: 'acquire on lock' if side == 'lock' else 'release on unlock'})
+        if found.u:
+            return False
+    return True
+
+
+# ======================================================================================================
+#  R-C12-3 (faithful pending indicator)
+# ======================================================================================================
+def check_indicator_type(ctx, tu, rec, T, r, names, counts):
+    """the `new value pending` indicator is a boolean that the producer sets and the consumer clears (both under the mutex,
+    R-C12-3/4): it is true exactly while there are assignments that update() has not installed"""
+    counts[R3] += 1
+    ty = names['newValue']
+    if ty in ('bool', 'std::atomic<bool>'):
+        ctx.ok(R3, '%s pending indicator' % r['q'].replace('rkcommon::utility::', ''), 'newValue is a %s set by the producer and cleared '
+               'by the consumer' % ty, T['file'])
+    else:
+        ctx.undecided(R3, '%s pending indicator' % r['q'].replace('rkcommon::utility::', ''), 'newValue has type %s: not a boolean flag, '
+                      'faithfulness of the pending test not decided' % ty, T['file'])
+
+
+def member_operand(tu, sy, rec, e):
+    """(member name) if e reads a data member of *this (plain read or atomic load), else None"""
+    e = tu.strip(e, casts=True)
+    if e is None:
+        return None
+    a = sy.atomic_op(e)
+    if a is not None and a['op'] == 'load' and a['field'] is not None and a['field'][0] == rec and sy.base_is_this(a['obj']):
+        return a['field'][1]
+    fld = sy.field(e)
+    if fld is not None and fld[0] == rec and sy.base_is_this(e):
+        return fld[1]
+    return None
+
+
+def check_counter_indicator(ctx, tu, sy, rec, T, recs):
+    """the anchored flag is gone: is the pending test of update() a comparison of wrapping counters?  (recognised-wrong form)
+    Returns True if a verdict (violation) was given."""
+    gave = False
+    for r in recs:
+        fields = {x['name']: x for x in r.get('fields', [])}
+        ups = [f for f in tu.functions.values() if not f['dep'] and f.get('recid') == r['id'] and last(f['q']) == 'update'
+               and tu.cfg(f) is not None]
+        prods = [f for f in tu.functions.values() if not f['dep'] and f.get('recid') == r['id'] and last(f['q']) in T['producer']
+                 and tu.cfg(f) is not None]
+        inl = inliner(tu, T)
+        for f in ups:
+            for b in tu.cfg(f).blocks.values():
+                if not b.cond:
+                    continue
+                pol, atom = sy.cond_atom(tu.node(b.cond))
+                if atom is None or atom.get('kind') != 'BinaryOperator' or atom.get('opcode') not in ('==', '!='):
+                    continue
+                ops = [member_operand(tu, sy, rec, x) for x in tu.kids(atom)]
+                if None in ops or ops[0] == ops[1]:
+                    continue
+                widths = [fields[o]['talign'] for o in ops if o in fields]
+                ints = all(o in fields and 'bool' not in fields[o]['ct'] and fields[o]['ct'].replace('std::atomic<', '').rstrip('>').strip()
+                           in ('unsigned char', 'signed char', 'char', 'unsigned short', 'short', 'unsigned int', 'int', 'unsigned long',
+                               'long', 'unsigned long long', 'long long') for o in ops)
+                if not ints or len(widths) != 2:
+                    continue
+                # does the producer advance one of them by a wrapping increment?
+                bumped = None
+                for pf in prods:
+                    for fn in inl.reachable_fns(pf):
+                        for _b, _i, n in tu.cfg(fn).stmts():
+                            a = sy.atomic_op(n)
+                            if a is not None and a['op'] == 'rmw' and a['field'] is not None and a['field'][0] == rec and \
+                                    a['field'][1] in ops and a['name'] in ('operator++', 'operator+=', 'fetch_add'):
+                                bumped = a['field'][1]
+                            if n.get('kind') in ('UnaryOperator', 'CompoundAssignOperator') and n.get('opcode') in ('++', '+='):
+                                fld = sy.field(tu.kids(n)[0])
+                                if fld is not None and fld[0] == rec and fld[1] in ops:
+                                    bumped = fld[1]
+                if bumped is None:
+                    continue
+                w = min(widths)
+                inst = '%s %s' % (f['q'].replace('rkcommon::utility::', ''), f['fty'])
+                if w < 8:
+                    gave = True
+                    ctx.violation(R3, inst, 'update() decides whether a new value is pending by comparing the %d-bit counters %s and %s '
+                                  '(the producer increments %s for every assignment): after a multiple of 2^%d assignments between two '
+                                  'update() calls the counters are equal again, update() returns false and the last value is never '
+                                  'delivered. Equality of truncated counters is not a faithful "assignments since the last update > 0"'
+                                  % (8 * w, ops[0], ops[1], bumped, 8 * w), tu.loc(atom),
+                                  key='%s|%s|%s|pending-test-wraps' % (R3, T['file'], fn_short(f)),
+                                  path=['%s: %s' % (tu.loc(atom), tu.show(atom))])
+    return gave
+
+
+# ======================================================================================================
 def check_tu(ctx, tu, counts):
     sy = Sync(tu)
     for rec, T in TABLE.items():
@@ -766,15 +1110,23 @@ def check_tu(ctx, tu, counts):
             continue
         want = set(T['guarded']) | set(T['confined']) | {T['mutex']}
         okrec = True
+        lock_checked = set()
         for r in recs:
             names = {x['name']: x['ct'] for x in r.get('fields', [])}
             if not want <= set(names):
-                ctx.broken('C12: %s lacks the anchored member(s) %s' % (r['q'], sorted(want - set(names))))
+                if rec == VAL and want - set(names) == {'newValue'} and check_counter_indicator(ctx, tu, sy, rec, T, [r]):
+                    # the flag was replaced by a recognised-wrong pending test: reported; the other rules need the flag
+                    ctx.note('%s: member newValue is gone; R-C12-1/3/4 not evaluated for this record' % r['q'])
+                else:
+                    ctx.broken('C12: %s lacks the anchored member(s) %s' % (r['q'], sorted(want - set(names))))
                 okrec = False
-            elif names[T['mutex']] != 'std::mutex':
-                ctx.undecided(R1, r['q'], 'member %s is a %s, not a std::mutex: lock semantics not modelled' % (T['mutex'], names[T['mutex']]),
-                              T['file'])
-                okrec = False
+                continue
+            if names[T['mutex']] not in lock_checked:
+                lock_checked.add(names[T['mutex']])
+                if not check_lockable(ctx, tu, sy, rec, T, names[T['mutex']], counts):
+                    okrec = False
+            if rec == VAL:
+                check_indicator_type(ctx, tu, rec, T, r, names, counts)
             for extra in sorted(set(names) - want):
                 if is_atomic_type(names[extra]) and atomic_mirror(tu, sy, rec, T, extra):
                     # contradiction rule: the code itself writes this atomic under the mutex somewhere, i.e. it mirrors guarded
@@ -813,6 +1165,8 @@ def run(ctx):
     ctx.describe(R3, 'TransactionalValue::update() returns true exactly on the installing path, installs iff the flag was observed set, '
                      'resets the flag inside the installing lock scope')
     ctx.describe(R4, 'TransactionalValue assignment stores the argument into queuedValue and sets the flag inside one lock scope')
+    ctx.describe(R5, 'the lock guarding the members orders consecutive critical sections: std::mutex (trusted) or a user-defined '
+                     'lockable whose unlock() releases (>= memory_order_release) and whose lock() acquires (>= memory_order_acquire)')
     ctx.assume('constructors and destructors run before the object is shared / after sharing has ended (no concurrent access yet): '
                'they are exempt from the guarded-by rule')
     ctx.assume('TransactionalValue is used 1-to-1 as documented: one producer thread assigns, one consumer thread calls update()/get()/ref()')
@@ -824,7 +1178,7 @@ def run(ctx):
         jobs.append(dict(unit='drivers/c12_handoff.cpp', config='TBB', std='gnu++17'))
         jobs.append(dict(unit='drivers/c12_handoff.cpp', config='INTERNAL'))
     tus = ctx.front.parse_many(jobs)
-    counts = {R1: 0, R2: 0, R3: 0, R4: 0}
+    counts = {R1: 0, R2: 0, R3: 0, R4: 0, R5: 0}
     for tu in tus:
         check_tu(ctx, tu, counts)
     k = len(tus)
@@ -832,5 +1186,6 @@ def run(ctx):
     ctx.floor(R2, counts[R2], 15 * k, 'per parse: 5 TransactionalBuffer members x 3 payloads')
     ctx.floor(R3, counts[R3], 4 * k, 'per parse: update() for 4 payloads')
     ctx.floor(R4, counts[R4], 5 * k, 'per parse: 5 instantiations of the assignment template')
+    ctx.floor(R5, counts[R5], 2 * k, 'per parse: the mutex type of TransactionalBuffer and of TransactionalValue')
     from rkstatic import selftest
     selftest.run(ctx)
